@@ -289,6 +289,9 @@ func testC12(t *testing.T, redisMode bool) {
 			// every request has returned and the background work is done: no lock may be left behind
 			// (it would refuse or delay the next request for that datatype until it expires)
 			w.env.WaitBackground(5 * time.Second)
+			// (a handler releases its lock AFTER it has answered: the last release may still be on its way; a lock
+			// that is really left behind stays for its whole expiry time of 10 s)
+			waitUntil(3*time.Second, func() bool { return len(w.env.Redis.Keys()) == 0 })
 			if left := w.env.Redis.Keys(); len(left) > 0 {
 				c.failf("all requests have been answered and the background work has finished, but these locks are still held in Redis: %v", left)
 			}
@@ -677,6 +680,15 @@ func TestC12Abandoned(t *testing.T) {
 				heldVerb = p[0].Verb
 			}
 			defer giveUp() // (cancels are idempotent; makes sure no context outlives the case)
+			if mode == "cancel-then-release" && heldVerb != "find" && heldVerb != "" {
+				// A WRITE that is held back beyond the moment its issuer gave up would reach the database after the
+				// requests of the clients that were let in meanwhile - a database that applies a command long after
+				// its connection was abandoned. No listed property quantifies over that (C08's faults are: not applied,
+				// applied but reported as failed, crash); orda's blind update of the datatype document has no fence
+				// against it. Such a command is released first, so that it is applied (or not) when it was issued.
+				mode = "release-then-cancel"
+				col.Excluded("a write command held back beyond the cancellation of its request (released first instead)")
+			}
 			switch mode {
 			case "cancel-then-release":
 				cancel()
